@@ -123,15 +123,15 @@ CLAIMED.update({
 EXTRA = {
     "C14": "Also (round 7): a connection that has seen GOAWAY is not available to the pool's retry (C14.R5, rule of C01.R4).",
     "C01": "Also: stream-table writer census, send-state fidelity, instance (not class) state, CLOSED stored before the first suspension of the lock-free close routine, and the convenience API closing an unfinished exchange on every exit. Round 6: every append to a per-stream event queue holds the read lock under which the batch was read (C01.R12). Round 9: the HTTP/1.1 response-close routine never reads or advances the peer side of h11 (C01.R13) - the both-sides-DONE test stays sound after a failed send.",
-    "C02": "Also: no cancellation point between h2.receive_data() and the end of the batch dispatch (reports KF27), and each real backend's read() returning the bytes of one receive primitive unmodified (b'' only for an end-of-stream class). Round 7: every DATA frame's flow-controlled length is returned as credit (C02.R8, the rule of C13.R5 run under this property). Round 8: inside the h2 read lock the socket is read only while the caller's own event queue is still empty (C02.R9, double-checked read).",
+    "C02": "Also: no cancellation point between h2.receive_data() and the end of the batch dispatch (reports KF27), and each real backend's read() returning the bytes of one receive primitive unmodified (b'' only for an end-of-stream class). Round 7: every DATA frame's flow-controlled length is returned as credit (C02.R8, the rule of C13.R5 run under this property). Round 8: inside the h2 read lock the socket is read only while the caller's own event queue is still empty (C02.R9, double-checked read). Round 10: no context manager of the package can suppress the exception raised in its block, so a failed body read never ends as a short body (C02.R10).",
     "C03": "Also: drain-to-write atomicity, fresh header list, Request never modified after construction, and each real backend's write() delivering the whole buffer (write-all primitive or a partial send in a loop advanced by the returned count). Round 6: census of `raise ConnectionNotAvailable` - a transmission attempt is repeated only from a point where nothing can have been sent (C03.R10; reports KF33: the GOAWAY re-send of a consumed iterator body). Round 7: the supplied Host / :authority names the URL's authority (C03.R11, rule of C19.R6). Round 8: no store into a URL / Origin object after construction - the caller's own URL instance is passed through (C03.R12, rule of C19.R8).",
     "C04": "Also: closed-means-closed predicates, lazy establishment as a test-and-set inside the establishment lock (lexical on both trees, await-atomicity census on the async tree). Round 5: every run of the assignment pass holds the pool lock (C04.R9, sync tree). Round 9: a private helper called only from inside the establishment region belongs to it; inside the attempt loop the failure flag is stored only on paths that leave the loop (C04.R4).",
     "C05": "Also: convenience API / Response close on every exit, shield fidelity, AsyncEvent.wait reporting PoolTimeout only as the mapped expiry of fail_after, the origin store link, and the abandoned-waiter rule (assignment consumed or inspected on every exit) which reports KF29.",
-    "C06": "Also: is_closed() truth tables, backend close() reaching the OS release on every path, every raising construct of start_tls (timeout scope included) inside the try that closes the stream, pool context exit and one-shot API scoping. Round 9: the establishment-failure flag is set only when establishment has finally failed (C06.R9, rule of C04.R4; reports KF21 - the first stream is never closed).",
+    "C06": "Also: is_closed() truth tables, backend close() reaching the OS release on every path, every raising construct of start_tls (timeout scope included) inside the try that closes the stream, pool context exit and one-shot API scoping. Round 9: the establishment-failure flag is set only when establishment has finally failed (C06.R9, rule of C04.R4; reports KF21 - the first stream is never closed). Round 10: the scheme gate of the pool tests the raw scheme and admits only keys of the URL.origin table, so the assignment pass cannot raise between taking connections off the list and returning them for closing (C06.R10).",
     "C07": "Also: the typestate and establishment rules shared with C05, primitive fidelity (no check-then-create window for a lost wake-up), the abandoned-waiter rule (KF29) and the origin store link. Round 7: is_available() of an establishing connection tests the scheme of the origin it serves (C07.R11). Round 8: a task that waited for the h2 read lock re-checks its own event queue before reading the socket - otherwise it blocks on a server that has answered (C07.R12). Round 9: stream-slot permits follow the advertised limit exactly (C07.R13, rule of C12.R3).",
     "C08": "Also: h2 drain+write / read+feed critical sections, primitive fidelity, establishment test-and-set, and an Eraser-style lockset census over all 27 written fields of the 11 thread-shared classes with check-then-act detection (found KF31, repaired). Rounds 5-6: publication order for double-checked locking (C08.R11), census of unlocked tests of lock-managed fields outside the advisory predicates (C08.R12), implicit __repr__/__str__ calls through logging and f-strings in the re-entry / blocking analyses. Round 7: only idle / expired / surplus-idle connections are evicted (C08.R13, rule of C09.R3).",
     "C09": "Also: the IDLE store guarded by the maintained in-flight set, the readability probe polling the OS socket on every backend, keepalive_expiry plumbing through every constructor call, and visibility of a request past the ACTIVE gate to the IDLE transition (reports KF32). Round 8: the has_expired() truth table includes keepalive_expiry=None (no deadline armed): the readability probe of an idle connection must still be reached. Round 9: recovery awaits of the connection classes are shielded, so in-flight accounting that keeps a connection ACTIVE is always given back (C09.R9, rule of C05.R4).",
-    "C10": "Also: ALPN set before the handshake with no network operation in between, fresh SSL context, plumbing of TLS / protocol / origin / connect-target parameters through every constructor call, derived URL/Origin identity, AutoBackend as a pure delegation. Rounds 5-6: ALPN set on the very context that is handed to the handshake, on every path (dominance); nothing modifies a Request or the extensions mapping it shares with the caller (C10.R11). Round 7: TLS and the origin request go onto a tunnel only after a 2xx (C10.R12, rule of C11.R3). Round 9: the CONNECT target is decided by evaluation with distinct remote / proxy / caller hosts; a protocol-selection variable bound once per branch is judged binding by binding (C10.R2, C10.R6).",
+    "C10": "Also: ALPN set before the handshake with no network operation in between, fresh SSL context, plumbing of TLS / protocol / origin / connect-target parameters through every constructor call, derived URL/Origin identity, AutoBackend as a pure delegation. Rounds 5-6: ALPN set on the very context that is handed to the handshake, on every path (dominance); nothing modifies a Request or the extensions mapping it shares with the caller (C10.R11). Round 7: TLS and the origin request go onto a tunnel only after a 2xx (C10.R12, rule of C11.R3). Round 9: the CONNECT target is decided by evaluation with distinct remote / proxy / caller hosts; a protocol-selection variable bound once per branch is judged binding by binding (C10.R2, C10.R6). Round 10: the establishing modules modify no per-process object (class-level / module-level container, mutable default) in place - scan of the source as written, before constants are inlined (C10.R13).",
     "C11": "Also: the SOCKS negotiated address, the refusal branch failing only with ProxyError, and proxy-hop configuration plumbing (the hop to the proxy never inherits the origin's protocol flags). Round 7: TLS-scheme origins behind an HTTP proxy are tunnelled, never forwarded (C11.R7, cells of C10.R3). Round 9: the CONNECT target value is decided by evaluation (C11.R2).",
     "C12": "Also: stream-table census, connection-wide failure fields set only for Exceptions, stream id reserved atomically with HEADERS (reports KF30), a request waiting for a slot visible to the IDLE transition (reports KF32), await-atomicity census. Round 6: no cancellation point between draining the shared h2 output buffer and writing it (C12.R10). Round 7: a peer's MAX_CONCURRENT_STREAMS = 0 is never applied (C12.R11). Round 8: double-checked read of the shared socket (C12.R12); the stream-slot permit is given back at most once per response (C12.R13, rule of C05.R5).",
     "C13": "Also: the wait loop waiting while the window is negative (found KF28, repaired), END_STREAM agreement between HEADERS and the body routine, and the backend write() delivering each frame completely and in order. Round 9: flush-before-wait - a forward may-analysis over the HTTP/2 class shows no network read is reached while frames the task queued on the h2 state machine are unwritten (C13.R9).",
@@ -139,7 +139,7 @@ EXTRA = {
     "C16": "Also: the caller's extensions never mutated, derived requests carrying the caller's whole extensions mapping, and the bound handed to the runtime evaluated for timeout in {0, 0.0, 2.5, None} (0 is a limit, only None is unbounded). Round 9: every PoolTimeout-capable wait of an async primitive is entered only under a state test that waiting is needed - zero pool timeout (C16.R6).",
     "C17": "Also: no Response method other than close/aclose ends the exchange. Round 9: the wrap condition may not depend on anything but status and method (extra tests after the head are reported); start_tls / get_extra_info of the wrapper are not judged.",
     "C18": "Also: hand-written sync/async pairs of shared modules equal after de-async, the three real backends mapping the same failure kind to the same class and answering the same extra-info keys, and every coroutine call of the async code being awaited. Round 6: no path from inside a pool-lock region re-acquires the lock - the one construct that is a no-op in the async flavour and a non-reentrant lock in the sync flavour (C18.R9). Round 8: the thread Event and the async Event accept the same timeout domain - inf and None both mean no limit (C18.R10). Round 9: every literal the running-library tag is compared with is one current_async_library() returns (C18.R11).",
-    "C19": "Also: URL / Origin never modified outside their constructors, derived URL/Origin copying scheme, host and port. Rounds 5-6: the parse is applied to the type- and ASCII-checked whole argument (parse-input), port 0 in the Host grid, known finding keyed by routine and host expression. Round 9: every authority formatter is evaluated over {registered name, IPv6 literal that arrives bracketed}: the host appears once, as given (C19.R10).",
+    "C19": "Also: URL / Origin never modified outside their constructors, derived URL/Origin copying scheme, host and port. Rounds 5-6: the parse is applied to the type- and ASCII-checked whole argument (parse-input), port 0 in the Host grid, known finding keyed by routine and host expression. Round 9: every authority formatter is evaluated over {registered name, IPv6 literal that arrives bracketed}: the host appears once, as given (C19.R10). Round 10: identity tests only against None / True / False / UPPER_CASE sentinels; the evaluators return UNKNOWN for `is` between ordinary values instead of reading it as `==` (C19.R11).",
     "C20": "Also: only network failure classes mapped to ConnectError/ConnectTimeout by the backends, retries plumbing, and every coroutine call on the sleep chain being awaited. Rounds 5-6: the number of retries decided by evaluating the exhaustion guard / the range for retries = -1, 0, 1, 2, 5 (counting down, up, or a for-loop); the back-off sequence advanced only in the failure handler. Round 9: eight back-off delays are folded (a levelled-off sequence deviates from the sixth retry on).",
 }
 for _pid, _extra in EXTRA.items():
